@@ -7,6 +7,8 @@
 import Caches.Lemmas.Arc
 import Caches.Lemmas.Reach
 import Caches.Props.ArcSpec
+import Caches.Props.ArcMachine
+import Caches.Lemmas.Reach
 set_option linter.unusedSectionVars false
 set_option linter.unusedVariables false
 set_option linter.unusedSimpArgs false
@@ -299,4 +301,70 @@ example : (ArcSpec.put ⟨[(2, 20)], [], [(1, 10)], [], 0⟩ 1 1 (11 : Nat)).1.t
 example : ({ size := 2, p := 1, recent := ⟨2, [(1, 10)], false⟩, frequent := ⟨2, [(2, 20)], false⟩,
              recentEvict := ⟨2, [(3, 30)], false⟩, frequentEvict := ⟨2, [(4, 40)], false⟩ } : Arc Nat Nat).Inv := by
   constructor <;> decide
+/-! ### the other entry points, and every history -/
+
+/-- **`remove` = the policy**: T1, T2, then the two ghost lists; `p` untouched -/
+theorem remove_eq_spec (a : Arc κ ν) (k : κ) :
+    (view (a.remove k).1, (a.remove k).2.1) = ArcSpec.remove (view a) k := by
+  unfold Arc.remove RawLru.remove ArcSpec.remove view
+  cases h1 : find k a.recent.items <;> cases h2 : find k a.frequent.items <;>
+    cases h3 : find k a.recentEvict.items <;> cases h4 : find k a.frequentEvict.items <;> simp
+
+/-- **`peek_mut` (+ write) = the policy** -/
+theorem peekMut_eq_spec (a : Arc κ ν) (k : κ) (w : Option ν) :
+    view (a.peekMut k w).1 = ArcSpec.peekMut (view a) k w := by
+  unfold Arc.peekMut RawLru.peekMut ArcSpec.peekMut view
+  cases h1 : find k a.recent.items <;> cases h2 : find k a.frequent.items <;> cases w <;> simp
+
+/-- **every operation = the policy**, on every well-formed cache -/
+theorem step_eq_spec (a : Arc κ ν) (o : CacheOp κ ν) (h : a.Inv) :
+    ∃ a', a.step o = .ok a' ∧ view a' = ArcSpec.step a.size (view a) o := by
+  cases o with
+  | put k v =>
+    obtain ⟨r, a', d, hp, he⟩ := put_eq_spec a k v h
+    exact ⟨a', by simp only [Arc.step, hp], by simp only [ArcSpec.step, ← he]⟩
+  | getMut k w =>
+    obtain ⟨r, a', d, hp, he⟩ := get_eq_spec a k w h
+    exact ⟨a', by simp only [Arc.step, hp], by simp only [ArcSpec.step, ← he]⟩
+  | peekMut k w => exact ⟨_, rfl, by simp only [ArcSpec.step, ← peekMut_eq_spec]⟩
+  | remove k => exact ⟨_, rfl, by simp only [ArcSpec.step, ← remove_eq_spec]⟩
+  | purge =>
+    refine ⟨{ a with recent := { a.recent with items := [] }, frequent := { a.frequent with items := [] },
+                     recentEvict := { a.recentEvict with items := [] },
+                     frequentEvict := { a.frequentEvict with items := [] } }, ?_, rfl⟩
+    simp only [Arc.step, Arc.purge, RawLru.purge_spec]
+  | read => exact ⟨a, rfl, rfl⟩
+
+/-- **refinement over every history**: from the constructor, any sequence of public operations runs without a
+    fault and leaves T1, T2, B1, B2 (entry by entry, in recency order) and the adaptation target `p` exactly as
+    the ARC policy, folded over the same sequence from the empty state, says -/
+theorem history_eq_spec (size : Nat) (a0 : Arc κ ν) (hn : Arc.new size = some a0) (ops : List (CacheOp κ ν)) :
+    ∃ a', runOps Arc.step a0 ops = .ok a' ∧
+      view a' = ops.foldl (ArcSpec.step size) { t1 := [], t2 := [], b1 := [], b2 := [], p := 0 } := by
+  obtain ⟨hi0, hs0, _⟩ := Arc.inv_new size a0 hn
+  have hl0 : view a0 = ({ t1 := [], t2 := [], b1 := [], b2 := [], p := 0 } : ArcSpec.St κ ν) := by
+    unfold Arc.new at hn
+    split at hn
+    · cases hn
+    · injection hn with hn; subst hn; rfl
+  suffices H : ∀ (ops : List (CacheOp κ ν)) (a : Arc κ ν) (S : ArcSpec.St κ ν), Arc.InvC size a → view a = S →
+      ∃ a', runOps Arc.step a ops = .ok a' ∧ view a' = ops.foldl (ArcSpec.step size) S from
+    H ops a0 _ ⟨hi0, hs0⟩ hl0
+  intro ops
+  induction ops with
+  | nil => intro a S _ he; exact ⟨a, rfl, he⟩
+  | cons o rest ih =>
+    intro a S hc he
+    obtain ⟨a1, hs1, hc1⟩ := Arc.step_invC size a o hc
+    obtain ⟨a1', hs1', he1⟩ := step_eq_spec a o hc.1
+    rw [hs1] at hs1'; injection hs1' with hs1'; subst hs1'
+    rw [hc.2, he] at he1
+    obtain ⟨a2, hs2, he2⟩ := ih a1 _ hc1 he1
+    exact ⟨a2, by simp only [runOps, hs1, hs2], by simp only [List.foldl_cons, he2]⟩
+
+/-- non-vacuity of the history theorem: a history through eviction to B1, a recent-ghost hit that raises `p`, removal -/
+example :
+    let s := [CacheOp.put 1 10, .put 2 20, .getMut 1 none, .put 3 30, .put 2 21, .remove 3].foldl
+      (ArcSpec.step 2) ({ t1 := [], t2 := [], b1 := [], b2 := [], p := 0 } : ArcSpec.St Nat Nat)
+    (s.t1, s.t2, s.b1, s.b2, s.p) = ([], [(2, 21)], [], [(1, 10)], 1) := by decide
 end C09
